@@ -94,3 +94,18 @@ def cases(tier, seed, ctx=None):
     # close() called a second time a little later, while a 12 MiB response is still on its way to a client that reads slowly: the
     # client still receives all of it
     yield ("tlsraw", [b"GET /bigtwice HTTP/1.1\r\nHost: h\r\n\r\n", 0, 0, [], 1, 0, 6], "tlsraw-close-again-while-flushing")
+    # the response written from inside the request notification, for requests of every method (HEAD and OPTIONS included) and with
+    # headers a server might act on by itself: what the application sets is what goes out
+    nrq = 120 if tier == "quick" else 2000
+    rqs = [G.valid_request(rng, body_len=rng.choice([0, 0, 3])) for _ in range(nrq)]
+    rver, rtab = G.oracle(ctx, [q["raw"] for q in rqs])
+    for q in rqs:
+        hn, hv = rng.choice(G.SEMANTIC)
+        head = q["head"] + b"\r\n" + hn + b": " + hv + b"\r\n\r\n"
+        body = rng.bytes(max(0, q["cl"]))
+        resp = setters(rng, rng.range(0, 3)) + [G.Write(rng.bytes(rng.choice([1, 11, 300]))) for _ in range(rng.range(1, 2))] + [G.Close]
+        if rng.chance(1, 4):
+            j = rng.choice(JSONS)
+            resp = setters(rng, rng.range(0, 2)) + [rng.choice([G.WriteError(rng.choice(CODES), rng.choice(REASONS)), G.WriteJson(j, rng.choice(CODES), rendered[j])])]
+        ops = [G.Construct, G.Feed(head + body), G.Turn, G.Ack(100000)]
+        yield ("sock", [[resp, [], []], ops, G.env_for(rver, rtab, [q["raw"]]), [9]], "answered-request-method-%d" % q["method"])
